@@ -29,7 +29,7 @@ SPEC = {
                  "proved."),
         "design_ref": "DESIGN.md section 6 C03"},
     "streams": ["secrets"],
-    "witnesses": ["F1", "F15"],
+    "witnesses": ["F1", "F15", "F54"],
     "rule": ("deterministic matrix, identical on every run: 3 methods x 9 schema shapes (root only, chains of depth 1/2/4, "
              "config types with and without class-level key file, config type nested under a sub-configuration, list of "
              "schema items, list of config-type items, list below a sub-configuration with nested item sub-configurations) x "
